@@ -254,6 +254,9 @@ int main(int argc, char** argv)
                         ctx.each([&] { return chk.describe(D, av, {}); },
                                  [&](mc::Report& rep) { chk.run_incremental(D, k, av, {}, rep, idx); });
                     });
+            // (3d) short names set after the first use, and the parser object re-used through move assignment
+            for (size_t di = 0; di < ds.size(); di++)
+                for_all_vectors(alpha, a.asan() ? 1 : 2, ctx, [&](const std::vector<std::string>& av) { chk.used_before(ctx, ds[di], ds[(di + 1) % ds.size()], av, {}); });
         }
         // (4) thorough: one token deeper on the four richest declarations
         if (n_deep)
